@@ -11,6 +11,8 @@ def instances(tier):
              "consts": dict(HttpItems='HttpOk', Items='C04Items', Cfg='CfgPlain', MaxItems=2, ChunkMax=2, Conforming=False)},
             {"label": "fragment-discipline", "cfg": PLAIN,
              "consts": dict(HttpItems='HttpOk', Items='C04FragItems', Cfg='CfgPlain', MaxItems=3 if q else 4, ChunkMax=2, Conforming=False)},
+            {"label": "invalid-utf8-inside-fragmented-text", "cfg": PLAIN,
+             "consts": dict(HttpItems='HttpOk', Items='C04Utf8FragItems', Cfg='CfgPlain', MaxItems=3 if q else 4, ChunkMax=2, Conforming=False)},
             {"label": "violations-while-closing", "cfg": PLAIN,
              "consts": dict(HttpItems='HttpOk', Items='C04CloseItems', Cfg='CfgPlain', MaxItems=3, ChunkMax=2,
                             Conforming=False, Reacts={"none", "close"}, ReactAt={"ready", "text"}, MaxReacts=1)}] + ([] if q else [
